@@ -110,6 +110,6 @@ Proof. exact timeframe_till_min. Qed.
 (* literals the model repeats from the source are the ones the translator extracts from the current source (gen/Tables.v) *)
 From VGen Require Import Tables.
 From VModel Require Import Version.
-From VProofs Require Import TieProofs.
+From VProofs Require Import TieC14.
 Theorem c14_tie_products : P_OpenSSH = product_OpenSSH /\ P_Dropbear = product_DropbearSSH /\ P_LibSSH = product_LibSSH.
 Proof. exact tie_products. Qed.
